@@ -28,7 +28,7 @@ CLASSES = [
     "rekey", "rekey_collision", "type_only_rekey", "move", "clone", "remove", "remove_then_reinit", "shallow_copy",
     "shallow_copy_follows", "pickle_independent", "deepcopy_independent", "cache_update", "stray_planted",
     "two_projects", "update_sp_conflict", "move_collision", "clone_collision", "move_uninitialised",
-    "stray_id_named_file", "rekey_onto_id_named_file", "stale_handle_resynced_by_remove", "gone_id_reopened", "gone_id_unknown", "stale_handle_observed", "lazy_handle_left_alone", "refused_invalid_statepoint",
+    "stray_id_named_file", "rekey_onto_id_named_file", "stale_handle_resynced_by_remove", "gone_id_reopened", "gone_id_unknown", "stale_handle_observed", "lazy_handle_left_alone", "refused_invalid_statepoint", "stale_handle_resynced_by_reset",
     "doc_assigned_live_view_same_job", "doc_assigned_live_view_other_job",
 ]
 ASSUMPTIONS = [
@@ -162,6 +162,13 @@ CONSTRUCTED = [
     {"two_projects": False, "ops": [
         {"op": "new_init", "p": 0, "sp": {"a": 0}}, {"op": "write", "h": 0, "name": "f.txt", "data": "x"}, {"op": "plant_idfile", "p": 0, "sp": {"a": 1}},
         {"op": "sp_set", "h": 0, "k": "a", "v": 1}, {"op": "new_id", "p": 0, "k": 0, "how": "id"}, {"op": "touch_sp", "h": 1}]},
+    # reset() through a handle whose job was removed through another handle: the job exists again, empty
+    {"two_projects": False, "ops": [
+        {"op": "new_init", "p": 0, "sp": {"a": 0}}, {"op": "write", "h": 0, "name": "f.txt", "data": "x"}, {"op": "new_sp", "p": 0, "sp": {"a": 0}},
+        {"op": "init", "h": 1}, {"op": "remove", "h": 0}, {"op": "reset", "h": 1}, {"op": "touch_sp", "h": 1}, {"op": "doc_set", "h": 1, "k": "x", "v": 1}]},
+    {"two_projects": False, "ops": [
+        {"op": "new_init", "p": 0, "sp": {"a": 0}}, {"op": "new_id", "p": 0, "k": 0, "how": "id"}, {"op": "touch_sp", "h": 1}, {"op": "remove", "h": 0},
+        {"op": "reset", "h": 1}, {"op": "write", "h": 1, "name": "g.bin", "data": "y"}]},
     # an assignment signac refuses, through a lazy handle: the handle is what it was
     {"two_projects": False, "ops": [
         {"op": "new_init", "p": 0, "sp": {"a": 1, "b": 2}}, {"op": "new_project", "p": 0}, {"op": "new_id", "p": 0, "k": 0, "how": "id", "lazy": True},
